@@ -607,11 +607,13 @@ func (x *Explorer) Run() {
 					for k := 0; k < res.Effects; k++ {
 						w.Restore(s.snap)
 						w.fuse.Arm(k)
-						_ = w.Step(tr.Ctrl, tr.ID)
+						// (what the step did before it died – device requests, plugin documents – is part of the
+						// transition: monitors and path memories see it)
+						cres := w.Step(tr.Ctrl, tr.ID)
 						tokens := w.Restart()
 						env := s.env
 						env.Crashes++
-						add(Trans{Kind: "crash", Ctrl: tr.Ctrl, ID: tr.ID, K: k, Src: tr.Src}, nil, x.enq(map[string][]string{}, tokens), env)
+						add(Trans{Kind: "crash", Ctrl: tr.Ctrl, ID: tr.ID, K: k, Src: tr.Src}, &cres, x.enq(map[string][]string{}, tokens), env)
 					}
 				}
 			}
